@@ -10,6 +10,8 @@ streams (component level: the real classes are called in-process; document level
   vdocp / verbdocp : the same inside a complete document that goes through the ordinary paragraph pipeline
             (\\documentclass, paragraph breaks: `paragraphs()` normalises with the document's character substitutions), where
             the surrounding text must get its ligatures and the verbatim text must not
+  venva / vdoca / vdocpa : verbatim used under a \\let alias (\\let\\code\\verbatim \\let\\endcode\\endverbatim, \\begin{code}):
+            through the real `begin.invoke` (component) and in whole documents; bodies may mention \\end{verbatim}
   nsub    : `node.normalize(document.charsubs)` called on a node of each verbatim / math class (and on ordinary classes as a
             control) holding ligature sources, directly or one element deeper: text afterwards vs the C07 normalisation model
             with the class's `nosub` flag from the regenerated table Generated/NoCharsub.lean
@@ -96,7 +98,38 @@ def gen_nosub():
     return 'PlasVerif/Generated/NoCharsub.lean', src, 'probed'
 
 
-GENERATED = [gen_nosub]
+MATH_TEMPLATE_NAMES = ['math', 'displaymath', 'equation', 'eqnarray', 'eqnarray*']
+
+
+def gen_math_templates():
+    """which attribute of the node each HTML5 template of a mathematics class writes into the page (exact: read from
+    plasTeX/Renderers/HTML5/Math.jinja2s)"""
+    import extract, os, re
+    from framework import REPO
+    path = os.path.join(REPO, 'plasTeX', 'Renderers', 'HTML5', 'Math.jinja2s')
+    blocks = re.split(r'(?m)^name:', open(path, encoding='utf-8').read())
+    table = {}
+    for b in blocks[1:]:
+        head, _, body = b.partition('\n')
+        attrs = re.findall(r'\{\{\s*obj\.([A-Za-z_]+)\s*\}\}', body)
+        payload = [a for a in attrs if a not in ('id', 'ref')]
+        for name in head.split():
+            table[name] = payload
+    rows = []
+    for n in MATH_TEMPLATE_NAMES:
+        pl = table.get(n)
+        if pl is None or len(pl) != 1 or not re.fullmatch(r'[A-Za-z_]+', pl[0]):
+            raise ValueError('template of %s writes %r' % (n, pl))
+        rows.append('("%s", "%s")' % (n, pl[0]))
+    src = (extract.HEADER % ('plasTeX/Renderers/HTML5/Math.jinja2s', 'exact') +
+           'namespace PlasVerif.Generated.MathTemplates\n'
+           '/-- class name -> the node attribute its HTML5 template writes into the page -/\n'
+           'def payloadAttr : List (String × String) := [' + ', '.join(rows) + ']\n'
+           'end PlasVerif.Generated.MathTemplates\n')
+    return 'PlasVerif/Generated/MathTemplates.lean', src, 'exact'
+
+
+GENERATED = [gen_nosub, gen_math_templates]
 
 # ---------------------------------------------------------------- helpers
 
@@ -440,6 +473,19 @@ def generate(ctx):
         name = 'verbatim*' if rng.random() < 0.2 else 'verbatim'
         rest = rng.choice(list(DOC_RESTS))
         yield Case('vdocp', '1 %s %s %s' % (cps(name), cps(body), cps(rest)), {'kind': 'vdocp'})
+    for i in range(n_env // 4):     # verbatim under a \\let alias: the end marker carries the name written in \\begin{...}
+        written = rng.choice(list(ALIASES))
+        cls = ALIASES[written]
+        body = gen_body(rng, 30)
+        r = rng.random()
+        if r < 0.4:      # the class's own end marker is ordinary content here
+            k = rng.randint(0, len(body))
+            body = body[:k] + '\\end{%s}' % cls + body[k:]
+        elif r < 0.55:
+            body += '\\end{' + written[:rng.randint(0, len(written))]
+        st = rng.choice(['venva', 'vdoca', 'vdocpa'])
+        rest = rng.choice(list(DOC_RESTS)) if st != 'venva' else rng.choice(['', ' x', '\nafter \\emph{y}', '\\end{%s}' % cls])
+        yield Case(st, '%s %s %s %s' % (cps(written), cps(cls), cps(body), cps(rest)), {'kind': st})
     for i in range(n_env // 6):     # malformed: no (complete) end marker
         inp = gen_body(rng, 40) + rng.choice(['', '\\end{verbatim', '\\end{verbati}', '\\endverbati', '\\end{verbatim*}x'])
         yield Case('venvraw', '1 %s %s' % (cps('verbatim'), cps(inp)), {'kind': 'venvraw'})
@@ -521,6 +567,10 @@ def corpus():
         Case('nsub', 'verb 0 %s' % cps("a--b''c"), {'kind': 'nsub'}, 'corpus'),
         Case('nsub', 'math 1 %s' % cps("a--b''c"), {'kind': 'nsub'}, 'corpus'),
         Case('nsub', 'textbf 0 %s' % cps("a--b''c"), {'kind': 'nsub'}, 'corpus'),
+        # missed mutant c2: end marker named after the class instead of the name written in \\begin{...}
+        Case('vdoca', '%s %s %s %s' % (cps('code'), v, cps('\nhow to close: \\end{verbatim}\nstill inside \\end{cod\n'), cps(' after')), {'kind': 'vdoca'}, 'corpus'),
+        Case('vdocpa', '%s %s %s %s' % (cps('code'), v, cps('\nplain line\n'), cps('Z\\emph{Q}')), {'kind': 'vdocpa'}, 'corpus'),
+        Case('venva', '%s %s %s %s' % (cps('code'), v, cps('a \\b{c} %d\n'), cps(' x')), {'kind': 'venva'}, 'corpus'),
         # D15 witness: \endverbatim inside \begin{verbatim} ... \end{verbatim}
         Case('venv', '1 %s %s %s' % (v, cps('\na \\endverbatim b\n'), cps(' x')), {'kind': 'venv'}, 'corpus'),
         Case('vdoc', '1 %s %s %s' % (v, cps('\na \\endverbatim b\n'), cps(' after')), {'kind': 'vdoc'}, 'corpus'),
@@ -584,6 +634,34 @@ def impl_venv(begun, name, inp):
     return res_str(content, closed, unread(tex))
 
 
+ALIASES = {'code': 'verbatim', 'listingx': 'verbatim', 'codestar': 'verbatim*'}
+
+
+def alias_lets(written, cls):
+    if cls.endswith('*'):
+        return '\\expandafter\\let\\csname %s\\expandafter\\endcsname\\csname %s\\endcsname' \
+               '\\expandafter\\let\\csname end%s\\expandafter\\endcsname\\csname end%s\\endcsname' % (written, cls, written, cls)
+    return '\\let\\%s\\%s\\let\\end%s\\end%s' % (written, cls, written, cls)
+
+
+def impl_venv_alias(written, cls, inp):
+    """through the real `begin.invoke`: the tokens it pushes back are the node, the content characters and the end node"""
+    from plasTeX import Macro, VerbatimEnvironment
+    doc, tex = new_tex(alias_lets(written, cls) + '\\begin{%s}' % written + inp)
+    content, closed, seen = [], False, False
+    for t in tex:
+        if getattr(t, 'nodeType', None) == Macro.ELEMENT_NODE:
+            if not seen:
+                seen = isinstance(t, VerbatimEnvironment)      # the \\let commands come first
+                continue
+            if t.macroMode == Macro.MODE_END:
+                closed = True
+            break
+        if seen:
+            content.append(str(t))
+    return res_str(''.join(content), closed, unread(tex))
+
+
 PIPE = "\\documentclass{article}\\begin{document}\nOrdinary -- text.\n\n%s\n\nMore ``text''.\n\\end{document}\n"
 PIPE_PRE, PIPE_POST = ' Ordinary \u2013 text. ', ' More \u201ctext\u201d.'
 
@@ -605,11 +683,13 @@ def split_pipe(whole, content, piped):
     return t[:-1] if t.endswith(' ') else t
 
 
-def impl_vdoc(name, body, rest, piped=False):
+def impl_vdoc(name, body, rest, piped=False, cls=None):
     text = 'P\\begin{%s}%s\\end{%s}%s' % (name, body, name, rest)
+    if cls:
+        text = alias_lets(name, cls) + ' ' + text
     doc, tex = new_tex(PIPE % text if piped else text)
     tex.parse()
-    nodes = doc.getElementsByTagName(name)
+    nodes = [n for n in doc.getElementsByTagName(cls or name) if n.macroMode != n.MODE_END]
     if len(nodes) != 1:
         return 'nodes:%d' % len(nodes)
     node = nodes[0]
@@ -699,6 +779,11 @@ def impl(case, aux):
             return impl_venv(begun, name, body + esc_end + rest)
         if kind in ('vdoc', 'vdocp'):
             return impl_vdoc(uncps(w[1]), uncps(w[2]), uncps(w[3]), kind == 'vdocp')
+        if kind == 'venva':
+            written, cls, body, rest = uncps(w[0]), uncps(w[1]), uncps(w[2]), uncps(w[3])
+            return impl_venv_alias(written, cls, body + '\\end{%s}' % written + rest)
+        if kind in ('vdoca', 'vdocpa'):
+            return impl_vdoc(uncps(w[0]), uncps(w[2]), uncps(w[3]), kind == 'vdocpa', uncps(w[1]))
         if kind == 'nsub':
             return cps0(normalize_probe(w[0], uncps(w[2]), w[1] == '1'))
         if kind == 'venvraw':
@@ -772,7 +857,7 @@ def judge(o):
         if o.corr_ok and o.impl != o.model:
             o.note = 'implementation follows the as-is variant (D17)'
         return
-    if st in ('vdoc', 'verbdoc', 'vdocp', 'verbdocp') and o.spec == '-':
+    if st in ('vdoc', 'verbdoc', 'vdocp', 'verbdocp', 'vdoca', 'vdocpa') and o.spec == '-':
         # the body contains the complete end marker / closing delimiter: outside the domain, and the document-level
         # observation (text after the node) is not modelled for it; the component streams compare such inputs
         o.corr_ok = o.prop_ok = True
@@ -788,6 +873,8 @@ def nontrivial(o):
     w = o.case.line.split()
     if st == 'msrc':
         return len(w) >= 8
+    if st in ('venva', 'vdoca', 'vdocpa'):
+        return True
     if st in ('venv', 'vdoc', 'vdocp'):
         return any(c in uncps(w[2]) for c in SPECIALS)
     if st in ('verb', 'verbdoc', 'verbdocp'):
@@ -863,7 +950,7 @@ def _valid(seq, intext=False):
 
 def shrink(ctx, o, evaluate):
     st = o.case.stream
-    if st in ('venv', 'vdoc', 'verb', 'verbdoc', 'vdocp', 'verbdocp', 'nsub'):
+    if st in ('venv', 'vdoc', 'verb', 'verbdoc', 'vdocp', 'verbdocp', 'nsub', 'venva', 'vdoca', 'vdocpa'):
         return _shrink_str_case(o, evaluate, 2)
     if st != 'msrc':
         return o
@@ -909,62 +996,71 @@ def search(ctx, evaluate, corr_bad):
 
 # ---------------------------------------------------------------- document level: rendered HTML payload
 
-def _render_payloads(formulas):
-    """render one document with the HTML5 renderer; returns the list of \\( ... \\) payloads found in the HTML"""
-    import os, tempfile, shutil, re, html
-    from plasTeX.TeX import TeX
-    from plasTeX import TeXDocument
-    from plasTeX.Config import defaultConfig
-    from plasTeX.Renderers.HTML5 import Renderer
-    from plasTeX.Renderers.HTML5.Config import addConfig
-    config = defaultConfig()
-    addConfig(config)
-    config['images']['enabled'] = False
-    config['images']['vector-imager'] = 'none'
-    config['images']['imager'] = 'none'
-    d = tempfile.mkdtemp(prefix='c11html')
-    cwd = os.getcwd()
-    try:
-        os.chdir(d)
-        doc = TeXDocument(config=config)
-        tex = TeX(doc)
-        tex.input('\\documentclass{article}\\begin{document}' + ''.join('Q $%s$ W\n\n' % f for f in formulas) + '\\end{document}')
-        tex.parse()
-        srcs = [m.mathjax_source for m in doc.getElementsByTagName('math')]
-        Renderer().render(doc)
-        out = ''
-        for fn in sorted(os.listdir(d)):
-            if fn.endswith('.html'):
-                out += open(os.path.join(d, fn), encoding='utf-8').read()
-        found = [html.unescape(m) for m in re.findall(r'\\\(.*?\\\)', out, re.S)]
-        return srcs, found
-    finally:
-        os.chdir(cwd)
-        shutil.rmtree(d, ignore_errors=True)
+HTML_FORMS = {   # how a formula stands in the rendered document -> node name
+    'dollar': ('Q $%s$ W', 'math'), 'paren': ('Q \\(%s\\) W', 'math'), 'bracket': ('Q \\[%s\\] W', 'displaymath'),
+    'ddollar': ('Q $$%s$$ W', 'displaymath'), 'equation': ('Q \\begin{equation}%s\\end{equation} W', 'equation'),
+}
 
 
 def _html_case(seed, n):
+    """n (form, formula) pairs; every kind of formula node, with `<` / `>` standing directly before letters (what an HTML
+    parser would take for a tag when the \\lt / \\gt protection is missing)"""
     rng = random.Random(seed)
-    forms = []
+    kinds = list(HTML_FORMS)
+    forms = [(k, f) for k in kinds for f in ('0<x<y\\quad\\sqrt[n]{a>b}<p', 'a<b>c')]
     while len(forms) < n:
         seq = gen_seq(rng, rng.randint(1, 3), rng.randint(1, 3))
+        if rng.random() < 0.6:
+            k = rng.randint(0, len(seq))
+            seq = seq[:k] + [('C', rng.choice('<>')), ('C', rng.choice(LETTERS))] + seq[k:]
         f = Writer(None, False).seq(seq)
         if '$' not in f:          # nested formulas have no payload of their own in the HTML
-            forms.append(f)
+            forms.append((rng.choice(kinds), f))
     return forms
+
+
+class _PageText:
+    """the text a browser (and so MathJax) sees: character data of the page, entities decoded, tags dropped"""
+    def __init__(self, page):
+        from html.parser import HTMLParser
+        out = []
+
+        class H(HTMLParser):
+            def handle_data(self, data):
+                out.append(data)
+        h = H(convert_charrefs=True)
+        h.feed(page)
+        h.close()
+        self.text = ' '.join(''.join(out).split())
 
 
 def _html_check(seed, n):
     forms = _html_case(seed, n)
-    srcs, found = _render_payloads(forms)
+    src = '\\documentclass{article}\\begin{document}\n' + '\n\n'.join(HTML_FORMS[k][0] % f for k, f in forms) + '\n\\end{document}\n'
+    doc, page = _render_doc(src)
+    text = _PageText(page).text
     bad = []
-    if len(srcs) < len(forms):
-        bad.append('only %d math nodes for %d formulas' % (len(srcs), len(forms)))
-    for s in srcs:
-        if s not in found:
-            bad.append('payload %r not in the rendered HTML' % s)
+    names = set(v[1] for v in HTML_FORMS.values())
+    nodes = []
+
+    def walk(node, inside):
+        for ch in getattr(node, 'childNodes', []):
+            isf = getattr(ch, 'nodeName', None) in names and getattr(ch, 'macroMode', None) != getattr(ch, 'MODE_END', -1)
+            if isf and not inside:
+                nodes.append(ch)
+            walk(ch, inside or isf)
+    walk(doc, False)
+    if len(nodes) != len(forms):
+        bad.append('%d formula nodes for %d formulas' % (len(nodes), len(forms)))
+    pos = 0
+    for (k, f), node in zip(forms, nodes):
+        want = ' '.join(node.mathjax_source.split())
+        i = text.find(want, pos)
+        if i < 0:
+            bad.append('formula %r written as %r: payload %r is not in the text of the rendered page' % (f, HTML_FORMS[k][0] % f, want))
             break
-    return bad, len(srcs)
+        pos = i + len(want)
+    return bad, len(nodes)
 
 
 def _render_doc(source):
